@@ -190,7 +190,7 @@ def check_atomic(chk, rule, prog, cache, floor=None):
         f = prog.fn(name)
         where = "%s:%d" % (f.file, f.line)
         CONT = ("arg", 0)
-        for k, pa in enumerate(cache.get(name)):
+        for k, pa in enumerate(cache.get(name, inline_static=True)):
             if pa.ret != ("c", 0):
                 # success, or result of a nested container operation (its own atomicity is checked)
                 if not is_const(pa.ret):
